@@ -38,7 +38,8 @@ def ref_preorder(node, out):
     out.append(node)
     for f in dataclasses.fields(node):
         v = getattr(node, f.name)
-        if isinstance(v, list):
+        if isinstance(v, (list, tuple)):
+            # every child node counts, whatever sequence type holds it
             for i in v:
                 if isinstance(i, ast._Node):
                     ref_preorder(i, out)
